@@ -12,6 +12,7 @@ import (
 	"fmt"
 	"os"
 	"path/filepath"
+	"strconv"
 	"strings"
 	"testing"
 
@@ -330,8 +331,7 @@ func c19IntOf(e C19Entry) int {
 	case int:
 		return v
 	case string:
-		var n int
-		fmt.Sscan(strings.TrimSpace(v), &n)
+		n, _ := strconv.Atoi(strings.TrimSpace(v)) // decimal, whatever it starts with
 		return n
 	}
 	return 0
@@ -767,7 +767,10 @@ func genC19Entry(t *rapid.T, setting string, isInt bool) C19Entry {
 			case "limits.maxFileSizeBytes":
 				n = rapid.SampledFrom([]int{100, 319, 320, 321, 5000, 1000000}).Draw(t, "n")
 			}
-			switch rapid.IntRange(0, 8).Draw(t, "enc") {
+			switch rapid.IntRange(0, 9).Draw(t, "enc") {
+			case 9:
+				// decimal digits with a leading zero are still that decimal number
+				e.Value = "0" + fmt.Sprint(n)
 			case 8:
 				// a well-typed number far beyond any practical bound
 				e.Value = rapid.SampledFrom([]float64{1e18, 1e19, 9.3e18, 1e300}).Draw(t, "huge")
@@ -793,7 +796,7 @@ func genC19Entry(t *rapid.T, setting string, isInt bool) C19Entry {
 		e.Value = rapid.SampledFrom([]any{float64(0), float64(-1), float64(-100), "0", "-7"}).Draw(t, "np")
 	case "illtyped":
 		if isInt {
-			e.Value = rapid.SampledFrom([]any{true, nil, "abc", "", []any{float64(3)}, map[string]any{"x": float64(1)}, "1x"}).Draw(t, "bad")
+			e.Value = rapid.SampledFrom([]any{true, nil, "abc", "", []any{float64(3)}, map[string]any{"x": float64(1)}, "1x", "0x10", "4_0", "0b11", "1e2", "25.0"}).Draw(t, "bad")
 		} else {
 			e.Value = rapid.SampledFrom([]any{float64(1), float64(0), nil, "yes", "1", "", []any{true}, map[string]any{}}).Draw(t, "bad")
 		}
